@@ -179,7 +179,10 @@ PROP = dict(
         "f64 reading of the property: exact arithmetic on the f64 values, gap(out) <= gap(in) + total/2^45 (accumulated "
         "rounding); the strict exact statement is refuted (C14_vnfirst_f64_exact_gap_refuted: one rounding error, 2^-54). "
         "Termination of VnBest on f64 weights: refuted for the loop before fix 98041ea (C14_vnbest_f64_terminates_refuted, "
-        "kept as a regression witness), NOT proved for the current loop (validated by the f64 stream: a hang is a rejection)",
+        "kept as a regression witness); for the current loop PROVED from monotonic-rounding laws through a lexicographic "
+        "measure (C14_vnbest_terminates_generic; all laws proved for Z, order/rank laws proved for SpecFloat), the ten "
+        "IEEE-754 facts about rounded +/- of f64_rounding_facts being the explicit premise of C14_vnbest_f64_terminates "
+        "(not proved for SpecFloat's SFadd/SFsub); still validated by the f64 stream, a hang is a rejection",
         "f64: SpecFloat SFadd/SFsub/SFdiv/SFltb/SFeqb at (53,1024) are the CPU's binary64 operations (validated bit-for-bit "
         "on every genuine-f64 case); rayon's fold/reduce on a 1-thread pool splits the index range once, in the middle",
         "weights are non-negative integers (i64, or f64 holding integers below 2^53) whose sums do not overflow",
